@@ -38,3 +38,23 @@ def replay(pid, path):
     cmd = r.get("harness_cmd")
     if cmd:
         subprocess.call("/verif/bin/build_harness.sh && cd /verif/work && /verif/harness/bin/" + cmd + " -out replay.txt -stats replay.json && /verif/ocaml/modelrun replay.txt | tail -3; python3 -c \"import json;print(json.load(open('replay.json'))['monitor_failures'])\"", shell=True)
+
+HOOK_COMMITS = ["5aa5cc2", "022b891"]
+NOT_YET = {}
+TB = ("Trusted: Coq kernel + vm_compute; no axioms (Print Assumptions checked each run); extraction ExtrOcamlBasic+ExtrOcamlZBigInt cross-checked by "
+      "vm_compute on a sample each run; translators (harness/cmd/xlate), Go harness, OCaml driver; the Go source is modelled, tied by regenerated "
+      "constants and differential execution; math/big, IAVL, tm-db, crypto trusted. ")
+META = {
+    "C13": dict(text="Theorems over unbounded Z for every reserve, amount and order book: plain trades and order-crossing trades (for ANY value of the float/sqrt oracle) keep r0*r1 and leave reserves positive; add-then-remove and proportional-share bounds; minimum liquidity. The Coq model is the transliterated PairV2 arithmetic and is run against the real PairV2 on every check (pure ops, stateful pool+orders histories with commits/restarts, big.Float ops).",
+                note=TB + "Caches of orderV2.go (lazy loading) are not modelled: compared with the abstract book differentially. 'Minimum liquidity stays locked at the zero address' relies on C05 (nobody signs for the zero address).",
+                technique="Coq proof (nia/lia over Z, induction over the order book) + differential correspondence + monitors"),
+    "C14": dict(text="Theorems: a taker trade consumes the abstract book (sorted by 53-bit price key, then id) as a prefix, all fills complete except possibly the last, each fill within one unit of the order's price, remainder keeps the price, little orders closed with exact refund, cancel exact and only once. The abstract book is compared with the real cached/lazily-loaded book after every operation of generated histories (adds, trades, cancels, commits, restarts).",
+                note=TB + "PARTIAL in one respect: rmi_spec/rdi_spec (Float.SetRat(q).Int() is floor or floor+1) is a hypothesis of the price theorem, validated on every sampled call by a monitor, not proved for Model/Float.v. Order expiry is exercised at node level only.",
+                technique="Coq proof (induction over the book) + differential refinement check against the real order caches + monitors"),
+    "C20": dict(text="Theorem: a proposal takes effect iff its support is strictly more than 2/3 of the present power (integers), at most one can, and the halt rule likewise; the real Blockchain decision functions are run on generated and boundary power/vote vectors (3v=2t±2, 10^40 magnitudes) through a verif accessor and compared with the model and with the integer inequality.",
+                note=TB + "Vote transactions (past heights, duplicate votes) are exercised by the ledger histories, not modelled here.",
+                technique="Coq proof (lia, induction over proposals) + differential + exact-arithmetic monitor"),
+    "C09": dict(text="Theorem (appdb layer, complete): for every history of blocks (arbitrary programs over the appdb API) with any restarts, every getter (height, hash, validators, block times, versions, emission, price) returns what a never-restarted node returns; tied to the source by a translator (Commit write order, Save* guards, dirty-flag assignments) and by running random programs against the real AppDB. Node level: generated histories executed straight and with restarts on the real node, comparing responses, app hashes, emission, exports.",
+                note=TB + "PARTIAL: caches of the state modules (order book, candidates, ...) are not modelled; for them only the node-level restart differential speaks.",
+                technique="Coq proof (invariant: caches coherent with disk after Commit) + regenerated code shape + differential (AppDB programs, node restarts)"),
+}
